@@ -174,7 +174,7 @@ def kill_judge(chk, sc, o):
     k = inj.get('opi', 0)
     allow_late = True       # a death noticed only when the next map-family call has begun makes THAT call raise RuntimeError, once
     for opi, (op, oo) in enumerate(zip(sc['ops'], o.get('ops', []))):
-        died = (oo.get('exc') or {}).get('type') == 'RuntimeError' and 'died unexpectedly' in str((oo.get('exc') or {}).get('args'))
+        died = (oo.get('exc') or {}).get('type') == 'RuntimeError'      # (the wording of the message is not part of the property)
         if opi < k:
             continue
         if opi == k:
@@ -277,7 +277,7 @@ def run(chk):
         # a failed call must surface its own error, never a foreign one; later successful calls are checked by the C01/C02 oracles above
         for opi, (op, oo) in enumerate(zip(sc['ops'], o['ops'])):
             if (op.get('fail') or {}).get('input') and (oo.get('outcome') != 'raise' or (oo.get('exc') or {}).get('type') != 'InputBroken') and \
-                    not ((oo.get('exc') or {}).get('type') == 'RuntimeError' and 'another' in str((oo.get('exc') or {}).get('args'))):
+                    not ((oo.get('exc') or {}).get('type') == 'RuntimeError' and any(':open:' in m2 for m2 in sc['model_ops'][:opi])):
                 chk.violation('input_error_surfaces', {'scenario': sc}, {'op': opi, 'outcome': oo.get('outcome'), 'raised': oo.get('exc')},
                               'an exception raised by the input iterable reaches the caller', input_class='input_error')
             if op.get('expect_rejected'):
@@ -288,7 +288,9 @@ def run(chk):
             if op['op'] in oracles.MAPS and not op.get('fail') and oo.get('outcome') == 'raise':
                 et = (oo.get('exc') or {}).get('type')
                 msg = str((oo.get('exc') or {}).get('args'))
-                if not (et == 'RuntimeError' and 'another' in msg):
+                # the documented error for calling a map while a lazy call is still open (recognised by its type and the situation,
+                # not by its wording)
+                if not (et == 'RuntimeError' and any(':open:' in m2 for m2 in sc['model_ops'][:opi])):
                     chk.violation('no_foreign_error_surfaces', {'scenario': sc}, {'op': opi, 'raised': oo.get('exc')},
                                   'a call that should succeed raises only the documented "another map is running" error', input_class='foreign_error')
     ks = kill_histories(rng, 120 if chk.tier == 'quick' else 2000)
